@@ -246,11 +246,55 @@ def run(prog, rep, tier='quick', config='default'):
                     org = mir.provenance(writer, discr, follow_all_call_args=True)
                     gf |= {f for of, f in org.fields if of == CSVTX}
                 triggers.setdefault(v, (writer, c, gf))
+    def flag_fields_behind(g, c0):
+        """the arm answers with a flag kept in a private struct (`COL => self.tx_fx`): the CsvTx fields the stores into that flag
+        depend on (`in_use.tx_fx |= tx.tx_curr_to_local_exchange_rate.is_some()`)"""
+        sw = g.blocks[c0.target]['term'] if c0.target in g.blocks else None
+        region = set()
+        if sw and sw['t'] == 'switch':
+            true_t = sw['otherwise'] if any(v == 0 for v, _ in sw['targets']) else None
+            if true_t is not None:
+                region = {b for b in g.blocks if g.dominates(true_t, b)}
+        flags = set()
+        for b in region:
+            for st in g.blocks[b]['stmts']:
+                for pl in g.stmt_sources(st):
+                    for (of, fl) in mir.place_fields(pl):
+                        a = prog.adts(g.crate).get(of)
+                        if a is not None and not a.get('pub') and of != CSVTX and prog.field_type(of, fl) == 'bool':
+                            flags.add((of, fl))
+        out = set()
+        for (of, fl) in flags:
+            for h in prog.product_fns():
+                if h.crate != g.crate or not h.file == g.file:
+                    continue
+                for b in h.blocks.values():
+                    for st in b['stmts']:
+                        if mir.place_fields(st['dst'])[-1:] == [(of, fl)]:
+                            # `flag |= new`: the new operand only (the flag's own previous value leads back to the whole struct)
+                            work, seen_l = list(st['r'].get('ops', [])), set()
+                            while work:
+                                o = work.pop()
+                                if not is_place(o) or mir.place_fields(o['pl'])[-1:] == [(of, fl)]:
+                                    continue
+                                l_ = o['pl']['l']
+                                d_ = h.single_def(l_) if not o['pl']['p'] else None
+                                if d_ and d_[2] == 'stmt' and d_[3]['r']['rv'] == 'binop' and l_ not in seen_l:
+                                    seen_l.add(l_)
+                                    work += list(d_[3]['r']['ops'])
+                                    continue
+                                out |= {f2 for o2, f2 in mir.provenance(h, o, follow_all_call_args=True).fields if o2 == CSVTX}
+        return out
     for g in wgroup:
         if g is cell_fn or g.ty.get(0) != 'bool':
             continue
-        for col, calls in str_arms(cs, g).items():
-            triggers.setdefault(col, (g, calls[0], arm_fields(prog, g, calls[0])))
+        garms = str_arms(cs, g)
+        for col, calls in garms.items():
+            af = arm_fields(prog, g, calls[0]) or flag_fields_behind(g, calls[0])
+            triggers.setdefault(col, (g, calls[0], af))
+        # a predicate `match col { OPTIONAL_A => flag_a, .., _ => true }`: its named arms are the optional set
+        if not opt_set and garms and set(garms) < set(expc):
+            opt_set = set(garms)
     # form 3: a constant table of (COLUMN, predicate) pairs next to the writer — the table is the optional set, each predicate
     # (a closure or a function of the module) is the trigger of its column
     if not opt_set:
